@@ -64,7 +64,10 @@ def oracle_one(scores, ms, bs, o):
             if P <= 0 or P <= mx - bs: break
             if P > tot: errs.append('segment [%d,%d) can be extended to %d with a higher score' % (a, b, e + 1)); break
             mx = max(mx, P)
-    # completeness of "single empty segment iff no run qualifies": any qualifying maximal run found by an independent scan must be reported
+    # NOTE: the converse of the last clause ("if a run qualifies, it is returned") is NOT part of the property and is false of the code: with
+    # breakSegmentThreshold < minScore a rejected low-scoring currentSegment is not reset after a break and its stale score makes later
+    # break decisions stricter (scores [2,-3,1,3], minScore 4, threshold 1: the run [2,4) of score 4 is not returned).  An oracle clause
+    # demanding it raised a false alarm on the unchanged tree and was removed; the quirk is part of the model (model/Fac.v) and of C13_runs.
     return sorted(set(errs))
 
 
